@@ -25,6 +25,7 @@ INNER = {
     "float": ["", "", ":.2", ":8.3", ":+.1", ":e", ":08.2", ":?", ":.0", ":<9.1"],
     "char": ["", ":>3", ":?", ":é^5"],
     "bool": ["", ":>6", ":<7", ":?"],
+    "flaky": ["", "", ":>6", ":.2"],
 }
 
 SEGMENTS = [" ", "", "-", ": ", " é ", "{{", "}}", "{{}}", "x", " and ", "日本", "(", ")", "=", "{{ ", " }}", "\\\"", "%",
@@ -105,7 +106,7 @@ def gen_fixed_attrs(rng):
     return attrs, canonical
 
 
-def gen_fields(rng, n, need_display_idx, robust=False):
+def gen_fields(rng, n, need_display_idx, robust=False, allow_flaky=False):
     if robust:
         # one type for every field of the variant, so that a change that reorders or re-binds fields
         # still type-checks and shows up as a wrong value instead of a build failure
@@ -114,7 +115,10 @@ def gen_fields(rng, n, need_display_idx, robust=False):
     tys = []
     for i in range(n):
         if i in need_display_idx:
-            tys.append(rng.choice(sorted(DISPLAY_TYPES.keys())))
+            if allow_flaky and rng.random() < 0.15:
+                tys.append("Flaky")
+            else:
+                tys.append(rng.choice(sorted(DISPLAY_TYPES.keys())))
         else:
             tys.append(rng.choice(sorted(DISPLAY_TYPES.keys()) + NODISPLAY_TYPES))
     return tys
@@ -144,7 +148,7 @@ def generate(rng, seed, size):
     out = []
     out.append("// @generated by /verif/gen/gen_corpus.py --seed %d (engine c17, size %s). Do not edit.\n" % (seed, size))
     out.append("use core::fmt::{self, Write};\n")
-    out.append("use strum_sim::c17::{Case, Subject, VariantInfo};\n")
+    out.append("use strum_sim::c17::{Case, Flaky, Subject, VariantInfo};\n")
     out.append("use strum_sim::fmtsim::Pick;\n\n")
     cases = []
     for ei in range(target):
@@ -196,13 +200,13 @@ def generate(rng, seed, size):
                     else:
                         k = rng.randint(1, nf)
                         used = sorted(rng.sample(range(nf), k))
-                    v["tys"] = gen_fields(rng, nf, used, robust)
+                    v["tys"] = gen_fields(rng, nf, used, robust, allow_flaky=(kind == "named"))
                     if lifetime and "&'static str" in v["tys"]:
                         v["tys"] = ["&'a str" if t == "&'static str" else t for t in v["tys"]]
                     refs = []
                     for i in used:
                         t = v["tys"][i]
-                        cls = DISPLAY_TYPES["&'static str" if t == "&'a str" else t]
+                        cls = "flaky" if t == "Flaky" else DISPLAY_TYPES["&'static str" if t == "&'a str" else t]
                         refs.append((str(i) if kind == "tuple" else v["fnames"][i], cls))
                     lit = gen_literal(rng, refs)
                     extra = []
